@@ -464,8 +464,8 @@ PROPS = {
                    'implementedBy as fast path in front of the Python fallback (whose body is verified: record-or-create, contracts/C01_impl.py), OSD_descr_get against ObjectSpecificationDescriptor.__get__ and '
                    'CPB_descr_get against ClassProvidesBase.__get__ (C01); more pairs are listed in the evidence as they are added. '
                    'The ownership obligations of the C functions (see C11) are discharged as part of this check.',
-        level_note='equivalence of the twins that are not listed as verified pairs is bounded (fixed programs and argument pool): IB__init__ (the C code also clears the specification slots, the Python code does not: re-initialising a live interface is not a supported operation), and the agreement of the Python '
-                   'implementedBy with the C fast path on its two fast cases; the CPython API '
+        level_note='IB__init__ / InterfaceBase.__init__ are verified against the same clause (name and module are the arguments, None when not given; the C code also clears the specification slots, the Python code does not: re-initialising a live interface is not a supported operation; the keyword NAMES are checked by the differential program constructors, fix e290ba1); the agreement of the Python '
+                   'implementedBy with the C fast path on its two fast cases is bounded; the CPython API '
                    'models of the C contract modules are trusted.',
         explanation='differential execution of generated programs under both implementations; ownership obligations of the C twins discharged',
         not_decided=['programs reaching C-only behaviour through user subclasses overriding the hooks', 'pre-3.11 static-type branch of the C file, PyPy'],
